@@ -71,6 +71,9 @@ type mBatch struct {
 	tb int
 	b  kvdb.Batch
 	m  kvmodel.Batch
+	// written: Write() was called since the last Reset() while operations were queued (they stay
+	// queued: a kvdb batch keeps its operations until Reset and every Write re-applies all of them)
+	written bool
 }
 
 type mSnap struct {
@@ -87,6 +90,8 @@ type machine struct {
 
 	batches []*mBatch
 	snaps   []*mSnap
+
+	long bool // this case also uses long prefixes and long keys (prefix+key around 32/64/128 bytes)
 
 	hash  uint64
 	trace []string
@@ -165,6 +170,84 @@ func drawPrefix(t *rapid.T, label string) []byte {
 	return kvmodel.KeyLen(t, label, 1, 3)
 }
 
+// lenNear draws a length in [min,max], half of the time right at a buffer-size boundary.
+func lenNear(t *rapid.T, label string, min, max int, marks []int) int {
+	var in []int
+	for _, x := range marks {
+		if x >= min && x <= max {
+			in = append(in, x)
+		}
+	}
+	if len(in) > 0 && rapid.Bool().Draw(t, label+".atmark") {
+		return rapid.SampledFrom(in).Draw(t, label+".mark")
+	}
+	return rapid.IntRange(min, max).Draw(t, label+".len")
+}
+
+// padded returns a string of n bytes (or tail, when it is longer) that ends in tail: one repeated
+// alphabet byte in front keeps long keys and prefixes colliding on long common prefixes.
+func padded(t *rapid.T, label string, n int, tail []byte) []byte {
+	if n <= len(tail) {
+		return tail
+	}
+	pad := rapid.SampledFrom(kvmodel.Alphabet).Draw(t, label+".pad")
+	return append(bytes.Repeat([]byte{pad}, n-len(tail)), tail...)
+}
+
+// prefix draws a table prefix: one of the boundary shapes, in long cases half of the time padded
+// to 4..40 bytes (same endings, so the 0xff / 0x00 shapes stay).
+func (m *machine) prefix(t *rapid.T, label string) []byte {
+	p := drawPrefix(t, label)
+	if m.long && rapid.Bool().Draw(t, label+".long") {
+		n := lenNear(t, label+".longlen", 4, 40, []int{7, 8, 9, 16, 24, 31, 32, 33, 40})
+		p = padded(t, label, n, p)
+	}
+	return p
+}
+
+// longKey draws a key of 30..70 bytes for a table with effective prefix eff, half of the time
+// such that prefix+key ends right at / around 32, 64 or 128 bytes.
+func longKey(t *rapid.T, label string, eff []byte) []byte {
+	var marks []int
+	for _, total := range []int{31, 32, 33, 63, 64, 65, 66, 96, 127, 128, 129} {
+		marks = append(marks, total-len(eff))
+	}
+	marks = append(marks, 63, 64, 65) // the key alone at the boundary
+	n := lenNear(t, label+".longlen", 30, 70, marks)
+	return padded(t, label, n, kvmodel.Key(t, label))
+}
+
+// key draws a key for an operation through tb: near the existing ones (existing, neighbour,
+// fresh short) or, in long cases, a fresh long one.
+func (m *machine) key(t *rapid.T, label string, tb *tbl, existing []string) []byte {
+	var k []byte
+	if m.long && rapid.IntRange(0, 3).Draw(t, label+".long") == 0 {
+		k = longKey(t, label, tb.eff)
+	} else {
+		k = kvmodel.KeyNear(t, label, existing)
+	}
+	m.noteKey(tb, k)
+	return k
+}
+
+// noteKey records the length classes of a key that goes through a table.
+func (m *machine) noteKey(tb *tbl, k []byte) {
+	if len(k) >= 30 {
+		m.class("long_key")
+	}
+	if len(tb.eff) >= 8 {
+		m.class("long_prefix_used")
+	}
+	for _, n := range []int{32, 64, 128} {
+		if len(k) <= n && len(tb.eff)+len(k) > n {
+			m.class(fmt.Sprintf("key_le_%d_prefixed_key_gt_%d", n, n))
+			if tb.parent >= 0 {
+				m.class(fmt.Sprintf("key_le_%d_prefixed_key_gt_%d_nested", n, n))
+			}
+		}
+	}
+}
+
 func (m *machine) addTable(t *rapid.T, i int) {
 	label := fmt.Sprintf("T%d", i)
 	tb := &tbl{parent: -1, name: label}
@@ -176,7 +259,7 @@ func (m *machine) addTable(t *rapid.T, i int) {
 	switch how {
 	case "nested":
 		tb.parent = rapid.IntRange(0, i-1).Draw(t, label+".parent")
-		tb.own = drawPrefix(t, label+".prefix")
+		tb.own = m.prefix(t, label+".prefix")
 		tb.eff = cat(o[tb.parent].eff, tb.own)
 		tb.t = o[tb.parent].t.NewTable(tb.own)
 		m.class("nested_table")
@@ -207,7 +290,7 @@ func (m *machine) addTable(t *rapid.T, i int) {
 		b := o[rapid.IntRange(0, i-1).Draw(t, label+".of")]
 		tb.own = append([]byte{}, b.eff...)
 	default:
-		tb.own = drawPrefix(t, label+".prefix")
+		tb.own = m.prefix(t, label+".prefix")
 	}
 	if tb.t == nil {
 		tb.eff = append([]byte{}, tb.own...)
@@ -248,6 +331,9 @@ func (m *machine) seed(t *rapid.T) {
 		put(cat(p, []byte{0x00}), "p,00")
 		put(cat(p, []byte{0xff}), "p,ff")
 		put(cat(p, kvmodel.KeyLen(t, "seed.in", 1, 2)), "inside")
+		if m.long {
+			put(cat(p, longKey(t, "seed.long", p)), "inside,long")
+		}
 	}
 	n := rapid.IntRange(0, 4).Draw(t, "seed.nrandom")
 	for i := 0; i < n; i++ {
@@ -346,7 +432,7 @@ func (m *machine) noteIsolation(i int) {
 
 func (m *machine) actPut(t *rapid.T) {
 	i, tb := m.pick(t)
-	k := kvmodel.KeyNear(t, "k", m.view(tb).Keys())
+	k := m.key(t, "k", tb, m.hot(tb, m.view(tb).Keys()))
 	v := kvmodel.Value(t, "v")
 	m.logf("%s.put(%x,%x)", tb.name, k, v)
 	m.used(tb)
@@ -359,7 +445,7 @@ func (m *machine) actPut(t *rapid.T) {
 
 func (m *machine) actDelete(t *rapid.T) {
 	i, tb := m.pick(t)
-	k := kvmodel.KeyNear(t, "k", m.view(tb).Keys())
+	k := m.key(t, "k", tb, m.hot(tb, m.view(tb).Keys()))
 	m.logf("%s.delete(%x)", tb.name, k)
 	m.used(tb)
 	m.noteIsolation(i)
@@ -370,7 +456,7 @@ func (m *machine) actDelete(t *rapid.T) {
 }
 
 func (m *machine) actDirect(t *rapid.T) {
-	k := kvmodel.KeyNear(t, "k", m.model.Keys())
+	k := kvmodel.KeyNear(t, "k", m.hotUnd(m.model.Keys()))
 	if rapid.Bool().Draw(t, "del") {
 		m.logf("underlying.delete(%x)", k)
 		if err := m.und.Delete(k); err != nil {
@@ -388,6 +474,81 @@ func (m *machine) actDirect(t *rapid.T) {
 	m.class("direct_underlying_write")
 }
 
+// hotUnd returns existing plus the underlying keys of the operations that sit in batches which
+// were written and not reset (twice, as a bias): a later Write of such a batch re-applies them, so
+// writes to these keys by other paths in between are what the re-application must override.
+func (m *machine) hotUnd(existing []string) []string {
+	out := existing
+	for _, b := range m.batches {
+		if !b.written {
+			continue
+		}
+		for _, o := range b.m.Ops {
+			k := string(cat(m.tables[b.tb].eff, o.K))
+			out = append(out, k, k)
+		}
+	}
+	return out
+}
+
+// hot is hotUnd restricted to the key space of tb (prefix removed).
+func (m *machine) hot(tb *tbl, existing []string) []string {
+	out := existing
+	for _, k := range m.hotUnd(nil) {
+		if strings.HasPrefix(k, string(tb.eff)) {
+			out = append(out, k[len(tb.eff):])
+		}
+	}
+	return out
+}
+
+// writeBatch calls Write() (and Reset() if asked) and applies to the model what a batch of the
+// underlying store restricted to the prefix does: every operation queued since the last Reset is
+// applied (again), in order.
+func (m *machine) writeBatch(bi int, reset bool) {
+	b := m.batches[bi]
+	tb := m.tables[b.tb]
+	how := "write()"
+	if reset {
+		how = "write()+reset()"
+	}
+	if b.written {
+		how = "again without reset: " + how
+	}
+	m.logf("batch#%d(%s).%s %v", bi, tb.name, how, b.m.Ops)
+	m.used(tb)
+	m.noteIsolation(b.tb)
+	var before *kvmodel.Map
+	if b.written {
+		before = m.model.Clone()
+	}
+	if err := b.b.Write(); err != nil {
+		m.failf("batch Write error: %v", err)
+	}
+	for _, o := range b.m.Ops {
+		if o.Del {
+			m.model.Delete(cat(tb.eff, o.K))
+		} else {
+			m.model.Put(cat(tb.eff, o.K), o.V)
+		}
+	}
+	if len(b.m.Ops) > 0 {
+		m.class("batch_write")
+		if b.written {
+			m.class("batch_written_again_without_reset")
+			if !before.Equal(m.model) {
+				m.class("batch_written_again_overrides_writes_in_between")
+			}
+		}
+		b.written = true
+	}
+	if reset {
+		b.b.Reset()
+		b.m.Reset()
+		b.written = false
+	}
+}
+
 func (m *machine) actBatch(t *rapid.T) {
 	if len(m.batches) == 0 || (len(m.batches) < 3 && rapid.IntRange(0, 3).Draw(t, "new") == 0) {
 		i, tb := m.pick(t)
@@ -397,9 +558,14 @@ func (m *machine) actBatch(t *rapid.T) {
 	bi := rapid.IntRange(0, len(m.batches)-1).Draw(t, "batch")
 	b := m.batches[bi]
 	tb := m.tables[b.tb]
-	switch op := rapid.SampledFrom([]string{"put", "put", "put", "delete", "delete", "write", "write", "write", "reset", "replay", "replay"}).Draw(t, "bop"); op {
+	op := rapid.SampledFrom([]string{"put", "put", "put", "delete", "delete", "write", "write", "write", "reset", "replay", "replay",
+		"write_keep", "write_keep", "rewrite"}).Draw(t, "bop")
+	if op == "rewrite" && len(b.m.Ops) == 0 {
+		op = "put"
+	}
+	switch op {
 	case "put":
-		k := kvmodel.KeyNear(t, "k", m.view(tb).Keys())
+		k := m.key(t, "k", tb, m.view(tb).Keys())
 		v := kvmodel.Value(t, "v")
 		m.logf("batch#%d(%s).put(%x,%x)", bi, tb.name, k, v)
 		if err := b.b.Put(k, v); err != nil {
@@ -407,35 +573,61 @@ func (m *machine) actBatch(t *rapid.T) {
 		}
 		b.m.Put(k, v)
 	case "delete":
-		k := kvmodel.KeyNear(t, "k", m.view(tb).Keys())
+		k := m.key(t, "k", tb, m.view(tb).Keys())
 		m.logf("batch#%d(%s).delete(%x)", bi, tb.name, k)
 		if err := b.b.Delete(k); err != nil {
 			m.failf("batch Delete error: %v", err)
 		}
 		b.m.Delete(k)
 	case "write":
-		m.logf("batch#%d(%s).write()+reset() %v", bi, tb.name, b.m.Ops)
-		m.used(tb)
-		m.noteIsolation(b.tb)
-		if err := b.b.Write(); err != nil {
-			m.failf("batch Write error: %v", err)
-		}
-		b.b.Reset()
-		for _, o := range b.m.Ops {
+		m.writeBatch(bi, true)
+	case "write_keep":
+		m.writeBatch(bi, false)
+	case "rewrite":
+		// Write, change one of the batch's keys by another path, Write again without Reset
+		m.writeBatch(bi, false)
+		m.check(t)
+		o := b.m.Ops[rapid.IntRange(0, len(b.m.Ops)-1).Draw(t, "rewrite.op")]
+		uk := cat(tb.eff, o.K)
+		var err error
+		switch path := rapid.IntRange(0, 3).Draw(t, "rewrite.path"); {
+		case path == 0 || (path == 2 && !o.Del):
+			// make sure the state differs from what the batch leaves
 			if o.Del {
-				m.model.Delete(cat(tb.eff, o.K))
+				v := kvmodel.Value(t, "v")
+				m.logf("%s.put(%x,%x)", tb.name, o.K, v)
+				err = tb.t.Put(o.K, v)
+				m.model.Put(uk, v)
 			} else {
-				m.model.Put(cat(tb.eff, o.K), o.V)
+				m.logf("%s.delete(%x)", tb.name, o.K)
+				err = tb.t.Delete(o.K)
+				m.model.Delete(uk)
 			}
+		case path == 1:
+			v := kvmodel.Value(t, "v")
+			m.logf("%s.put(%x,%x)", tb.name, o.K, v)
+			err = tb.t.Put(o.K, v)
+			m.model.Put(uk, v)
+		case path == 2:
+			v := kvmodel.Value(t, "v")
+			m.logf("underlying.put(%x,%x)", uk, v)
+			err = m.und.Put(uk, v)
+			m.model.Put(uk, v)
+		default:
+			m.logf("underlying.delete(%x)", uk)
+			err = m.und.Delete(uk)
+			m.model.Delete(uk)
 		}
-		if len(b.m.Ops) > 0 {
-			m.class("batch_write")
+		if err != nil {
+			m.failf("write between two Write() calls: %v", err)
 		}
-		b.m.Reset()
+		m.check(t)
+		m.writeBatch(bi, rapid.Bool().Draw(t, "rewrite.reset"))
 	case "reset":
 		m.logf("batch#%d(%s).reset()", bi, tb.name)
 		b.b.Reset()
 		b.m.Reset()
+		b.written = false
 	case "replay":
 		m.logf("batch#%d(%s).replay() %v", bi, tb.name, b.m.Ops)
 		if err := kvmodel.CheckReplay(b.b, &b.m); err != nil {
@@ -445,6 +637,9 @@ func (m *machine) actBatch(t *rapid.T) {
 			m.class("batch_replay")
 			if tb.parent >= 0 {
 				m.class("batch_replay_nested")
+			}
+			if b.written {
+				m.class("batch_replay_after_write_without_reset")
 			}
 		}
 	}
@@ -457,7 +652,7 @@ func (m *machine) actGet(t *rapid.T) {
 	ex := append(v.Keys(), m.model.Keys()...)
 	n := rapid.IntRange(1, 3).Draw(t, "n")
 	for i := 0; i < n; i++ {
-		k := kvmodel.KeyNear(t, "k", ex)
+		k := m.key(t, "k", tb, ex)
 		m.logf("%s.get/has(%x)", tb.name, k)
 		if err := kvmodel.CheckGetHas(tb.t, v, k); err != nil {
 			m.failf("%s: %v", tb.name, err)
@@ -610,6 +805,10 @@ func (m *machine) finish() {
 
 func prop(t *rapid.T) {
 	m := &machine{t: t, und: &recStore{Store: memorydb.New()}, model: kvmodel.New(), cls: map[string]bool{}}
+	m.long = rapid.IntRange(0, 2).Draw(t, "long") == 0
+	if m.long {
+		m.class("long_case")
+	}
 	n := rapid.SampledFrom([]int{1, 2, 2, 3, 3, 3}).Draw(t, "ntables")
 	for i := 0; i < n; i++ {
 		m.addTable(t, i)
